@@ -47,7 +47,8 @@ ASSUMPTIONS = [
 STATE_MEASURE = ('distinct (header context, verdict, first offending symbol '
                  'class) tuples')
 
-CONTEXTS = ['change', 'file', 'change2', 'main']
+CONTEXTS = ['change', 'file', 'change2', 'main', 'misplaced']
+LINE_OF = {'change': 1, 'file': 2, 'change2': 5, 'misplaced': 1}
 
 
 def gen_optstr(rng):
@@ -126,7 +127,7 @@ def build(ctx, optstr, crlf=False, own_lf=False, blanks=0, lead=0, ws=b''):
         # a run of blank lines in front of the header in question (blank
         # lines between sections carry no meaning)
         nl = b'\r\n' if crlf else b'\n'
-        tgt = {'change': 1, 'file': 2, 'change2': 5}.get(ctx)
+        tgt = LINE_OF.get(ctx)
         lines = data.split(b'\n')
 
         if tgt is not None and tgt < len(lines):
@@ -150,7 +151,7 @@ def _build(ctx, optstr, crlf=False, own_lf=False, ws=b''):
     if crlf:
         # every header line ends in CRLF; content keeps its LF
         out = []
-        target = {'change': 1, 'file': 2, 'change2': 5}.get(ctx)
+        target = LINE_OF.get(ctx)
 
         for n, line in enumerate(data.split(b'\n')[:-1]):
             if own_lf and n == target:
@@ -176,6 +177,10 @@ def build_lf(ctx, optstr, ws=b''):
         return (H + ws + b'#.change:' + optstr + b'\n#..file:\n' + M, 1)
     elif ctx == 'file':
         return (H + b'#.change:\n' + ws + b'#..file:' + optstr + b'\n' + M, 2)
+    elif ctx == 'misplaced':
+        # a file header where only a change (or a main preamble / meta) may
+        # stand: refused whatever its options look like
+        return (H + ws + b'#..file:' + optstr + b'\n' + M, 1)
     else:
         return (H + b'#.change:\n#..file:\n' + M + ws + b'#.change:' +
                 optstr + b'\n#..file:\n' + M, 4)
@@ -183,7 +188,8 @@ def build_lf(ctx, optstr, ws=b''):
 
 def generate(rng, tier, cls):
     return {'actors': [], 'schedule': [], 'faults': [],
-            'context': rng.choice(CONTEXTS[:3]),
+            'context': rng.choice(CONTEXTS[:3]) if rng.chance(0.92)
+            else 'misplaced',
             'opts_hex': gen_optstr(rng).hex(),
             'crlf': rng.chance(0.25),
             'own_lf': rng.chance(0.1),
@@ -282,9 +288,11 @@ def execute(scn, L):
                       scn.get('lead') if scn.get('lead') in (1, 2) else 0,
                       ws)
     line = build_lf(ctx, optstr, ws)[0].split(b'\n')[
-        {'change': 1, 'file': 2, 'change2': 5}[ctx]]
+        LINE_OF[ctx]]
     # in a CRLF file the line the grammar sees is the text before the CRLF
-    if own_lf and line.endswith(b'\r'):
+    if ctx == 'misplaced':
+        parsed = None
+    elif own_lf and line.endswith(b'\r'):
         # "...\r" + LF is a CRLF-terminated line after all
         parsed = R.parse_header_line(line[:-1])
     else:
